@@ -103,7 +103,9 @@ def _event(kind, sid, key):
     if f is not None and f["kind"] == kind and not f["fired"]:
         if f["n"] == 0:
             f["fired"] = True
-            exc = FAULT_TYPES.get(f.get("exc", "plain"), InjectedFault)("%s#%s" % (kind, f.get("tag", "")))
+            cls = FAULT_TYPES.get(f.get("exc", "plain"), InjectedFault)
+            # user code also raises exceptions without any argument (`raise Fault()`, a bare assert)
+            exc = cls() if f.get("noargs") else cls("%s#%s" % (kind, f.get("tag", "")))
             _Ctx.fired = exc
             tr.append(("X" + kind, sid, key))
             raise exc
